@@ -236,7 +236,37 @@ def check_pads(ctx, fmt, wm, wfn, extra_bindings=None):
     return n
 
 
+def check_nz_floor(ctx, rule='R-NZMIN'):
+    """gridded reader: two-dimensional files (low-level emissions) carry nz = 0 in the grid header but hold one record per species and
+    step; the layer count used for the record layout and the LAY dimension is max(header nz, 1)"""
+    ctx.rule(rule, 'uamiv memmap reader: the layer count used for the layout and for LAY is max(<header nz>, 1) (two-dimensional files say nz = 0)')
+    rp = 'camxfiles/uamiv/Memmap.py'
+    m = ctx.src.mod(rp)
+    fn = None
+    for q, f_ in m.functions.items():
+        if q.endswith('uamiv.__readheader') or q == 'uamiv.__readheader':
+            fn, qn = f_, q
+    where = 'src/PseudoNetCDF/%s uamiv.__readheader' % rp
+    if fn is None:
+        ctx.undec(rule, 'nz', where, 'function not found')
+        return
+    defs = [st for st in iter_stmts(fn.body) if isinstance(st, ast.Assign) and any(isinstance(t, ast.Name) and t.id == 'nz' for t in st.targets)]
+    floored = set(t.id for st in iter_stmts(fn.body) if isinstance(st, ast.Assign) and re.search(r"max\(.*\b1\b", norm(st.value)) and "'nz'" in norm(st.value) or
+                  (isinstance(st, ast.Assign) and re.search(r"max\(nz, ", norm(st.value))) for t in st.targets if isinstance(t, ast.Name))
+    uses = [c for c in walk_expr(fn) if isinstance(c, ast.Call) and isinstance(c.func, ast.Attribute) and c.func.attr == 'createDimension' and c.args and const_str(c.args[0]) == 'LAY']
+    if not defs or not uses:
+        ctx.undec(rule, 'nz', where, 'definition of nz / creation of LAY not found')
+        return
+    layarg = uses[0].args[1]
+    if isinstance(layarg, ast.Name) and layarg.id in floored:
+        ctx.ok(rule, 'nz', where, 'LAY = %s, floored at 1' % layarg.id)
+    else:
+        ctx.violation(Finding(rule, rp, qn, api.stmt_of(uses[0]), 'the LAY dimension gets %s, which is not max(<header nz>, 1): a two-dimensional emissions file (nz = 0 in its grid header) reads with LAY = 0 '
+                              '(and, when the stride uses the same value, with a step size that collapses to the time header)' % norm(layarg)))
+
+
 def run(ctx):
+    check_nz_floor(ctx)
     for r, d in (('R-FRAME', 'every emitted record: leading marker = trailing marker = payload byte count; the sequence tiles into records'),
                  ('R-DTYPEPADS', 'SPAD/EPAD pad values equal the byte sum of the bracketed fields'),
                  ('R-RECLAYOUT', 'per-layer record pieces have the kind/size sequence of the reader record'),
